@@ -209,6 +209,7 @@ var verif_ghost struct {
 	// completeness of batched lookups is proved for ONE arbitrary request and ONE arbitrary index entry: these two
 	// are never constrained by any contract, so what is proved about them holds for every pair
 	tGK int // an arbitrary request index
+	tGI int // an arbitrary position in a sorted slice (prollyBinSearch)
 	tGJ int // an arbitrary index entry
 
 	// blobstore-backed manifest (conditional write)
